@@ -239,6 +239,56 @@ def ownedVault (s : State) (p : Product) (e : Env) (from_ app prod vaultId : Nat
     else some { v with interest := v.interest + i }
   | _, _ => none
 
+/-! ### the bank calls of each handler as data
+
+Each handler below runs exactly the list `…Ops` (in this order) and touches the records only afterwards.  The lists are the
+model's side of `Props/C01Effects.lean`: their skeleton (kind, parties, denomination, "only if positive") is proved equal to
+the skeleton regenerated from the Go handlers on every run.  `abbrev`: existing proofs see through them. -/
+
+/-- MsgCreate (msg_server.go:107-151) -/
+abbrev createOps (p : Product) (from_ : Nat) (amtIn amtOut : Int) : List BankOp :=
+  .sendPos from_ vm p.denomIn amtIn :: mintAndSplit p from_ amtOut
+
+/-- MsgDeposit (msg_server.go:295-299) -/
+abbrev depositOps (p : Product) (from_ : Nat) (amt : Int) : List BankOp := [.sendPos from_ vm p.denomIn amt]
+
+/-- MsgWithdraw (msg_server.go:413-417) -/
+abbrev withdrawOps (p : Product) (from_ : Nat) (amt : Int) : List BankOp := [.sendPos vm from_ p.denomIn amt]
+
+/-- MsgDraw (msg_server.go:535-570) -/
+abbrev drawOps (p : Product) (from_ : Nat) (amt : Int) : List BankOp := mintAndSplit p from_ amt
+
+/-- MsgRepay, the whole payment is interest (msg_server.go:683-695) -/
+abbrev repayInterestOps (p : Product) (from_ : Nat) (amt : Int) : List BankOp :=
+  [.send from_ vm p.denomOut amt, .send vm cm p.denomOut amt]
+
+/-- MsgRepay, interest and part of the principal (msg_server.go:709-732) -/
+abbrev repayPrincipalOps (p : Product) (from_ : Nat) (v : VaultRec) (amt : Int) : List BankOp :=
+  [.send from_ vm p.denomOut amt, .burnPos p.denomOut (amt - v.interest), .sendPos vm cm p.denomOut v.interest]
+
+/-- MsgRepay: which of the two lists runs is decided by `amt ≤ v.interest` (msg_server.go:677) -/
+def repayOps (p : Product) (from_ : Nat) (v : VaultRec) (amt : Int) : List BankOp :=
+  if amt ≤ v.interest then repayInterestOps p from_ amt else repayPrincipalOps p from_ v amt
+
+/-- MsgClose (msg_server.go:837-872) -/
+abbrev closeOps (p : Product) (from_ : Nat) (v : VaultRec) : List BankOp :=
+  [.sendPos from_ vm p.denomOut (v.amountOut + v.interest + v.closingFee),
+   .sendPos vm cm p.denomOut v.interest, .sendPos vm cm p.denomOut v.closingFee,
+   .burnPos p.denomOut v.amountOut, .sendPos vm from_ p.denomIn v.amountIn]
+
+/-- liquidationsV2 `LiquidateIndividualVault` hand-over (liquidate.go:141-146, the transfer at 142) -/
+abbrev seizeOps (p : Product) (v : VaultRec) : List BankOp := [.sendPos vm am p.denomIn v.amountIn]
+
+/-- x/esm `SetUpCollateralRedemptionForVault`, one vault (esm.go:407, 442) -/
+abbrev esmVaultOps (p : Product) (v : VaultRec) : List BankOp := [.sendPos vm em p.denomIn v.amountIn]
+
+/-- x/esm `SetUpCollateralRedemptionForStableVault`, one stable-mint vault (esm.go:520, 559) -/
+abbrev esmStableOps (p : Product) (amountIn : Int) : List BankOp := [.sendPos vm em p.denomIn amountIn]
+
+/-- MsgCreateStableMint / MsgDepositStableMint (msg_server.go:1031-1076, 1199-1244); `out` = the minted amount -/
+abbrev stableMintOps (p : Product) (from_ : Nat) (amt out : Int) : List BankOp :=
+  .send from_ vm p.denomIn amt :: mintAndSplit p from_ out
+
 /-! ### the message handlers -/
 
 inductive Msg where
@@ -274,7 +324,7 @@ def create (s : State) (p : Product) (e : Env) (from_ app prod : Nat) (amtIn amt
   else if !verifyCR p e amtIn amtOut then none
   else if amtOut ≥ 2 ^ 63 then none                                          -- `AmountOut.Int64()` panics
   else
-    (runBank s (.sendPos from_ vm p.denomIn amtIn :: mintAndSplit p from_ amtOut)).map fun s1 =>
+    (runBank s (createOps p from_ amtIn amtOut)).map fun s1 =>
       let id := s1.nextVault + 1
       let v : VaultRec := { id := id, owner := from_, product := prod, amountIn := amtIn, amountOut := amtOut,
                             interest := 0, closingFee := feeOf amtOut p.closingFee }
@@ -289,7 +339,7 @@ def deposit (s : State) (p : Product) (e : Env) (from_ app prod vaultId : Nat) (
   | none => none
   | some v =>
     if v.amountIn + amt ≤ 0 then none else
-      (runBank s [.sendPos from_ vm p.denomIn amt]).map fun s1 =>
+      (runBank s (depositOps p from_ amt)).map fun s1 =>
         { s1 with vaults := setVault s1.vaults { v with amountIn := v.amountIn + amt },
                   coll := upd1 s1.coll prod (s1.coll prod + amt) }
 
@@ -304,7 +354,7 @@ def withdraw (s : State) (p : Product) (e : Env) (from_ app prod vaultId : Nat) 
   | some v =>
     if v.amountIn - amt ≤ 0 then none else
     if !verifyCR p e (v.amountIn - amt) (withdrawDebt e v) then none else
-      (runBank s [.sendPos vm from_ p.denomIn amt]).map fun s1 =>
+      (runBank s (withdrawOps p from_ amt)).map fun s1 =>
         { s1 with vaults := setVault s1.vaults { v with amountIn := v.amountIn - amt },
                   coll := upd1 s1.coll prod (s1.coll prod - amt) }
 
@@ -315,7 +365,7 @@ def draw (s : State) (p : Product) (e : Env) (from_ app prod vaultId : Nat) (amt
   | some v =>
     if s.minted prod + amt ≥ p.debtCeiling then none
     else if !verifyCR p e v.amountIn (v.amountOut + amt + v.interest + v.closingFee) then none else
-      (runBank s (mintAndSplit p from_ amt)).map fun s1 =>
+      (runBank s (drawOps p from_ amt)).map fun s1 =>
         { s1 with vaults := setVault s1.vaults { v with amountOut := v.amountOut + amt },
                   minted := upd1 s1.minted prod (s1.minted prod + amt) }
 
@@ -327,12 +377,11 @@ def repay (s : State) (p : Product) (e : Env) (from_ app prod vaultId : Nat) (am
     if v.amountOut + v.interest - amt < 0 then none
     else if amt ≤ v.interest then
       -- the whole payment is interest: forwarded to the collector
-      (runBank s [.send from_ vm p.denomOut amt, .send vm cm p.denomOut amt]).map fun s1 =>
+      (runBank s (repayInterestOps p from_ amt)).map fun s1 =>
         { s1 with vaults := setVault s1.vaults { v with interest := v.interest - amt } }
     else
       if v.amountOut - (amt - v.interest) < p.debtFloor then none else
-        (runBank s [.send from_ vm p.denomOut amt, .burnPos p.denomOut (amt - v.interest),
-                    .sendPos vm cm p.denomOut v.interest]).map fun s1 =>
+        (runBank s (repayPrincipalOps p from_ v amt)).map fun s1 =>
           { s1 with vaults := setVault s1.vaults { v with amountOut := v.amountOut - (amt - v.interest), interest := 0 },
                     minted := upd1 s1.minted prod (s1.minted prod - (amt - v.interest)) }
 
@@ -341,9 +390,7 @@ def close (s : State) (p : Product) (e : Env) (from_ app prod vaultId : Nat) : O
   match ownedVault s p e from_ app prod vaultId with
   | none => none
   | some v =>
-    (runBank s [.sendPos from_ vm p.denomOut (v.amountOut + v.interest + v.closingFee),
-                .sendPos vm cm p.denomOut v.interest, .sendPos vm cm p.denomOut v.closingFee,
-                .burnPos p.denomOut v.amountOut, .sendPos vm from_ p.denomIn v.amountIn]).map fun s1 =>
+    (runBank s (closeOps p from_ v)).map fun s1 =>
       { s1 with vaults := delVault s1.vaults v.id, length := s1.length - 1,
                 coll := upd1 s1.coll prod (s1.coll prod - v.amountIn),
                 minted := upd1 s1.minted prod (s1.minted prod - v.amountOut),
@@ -371,7 +418,7 @@ def stableCreate (s : State) (p : Product) (e : Env) (from_ app prod : Nat) (amt
   else if (s.vaultIds prod).length ≥ 1 then none
   else if s.minted prod + otherToken amt p.decIn p.decOut ≥ p.debtCeiling then none
   else
-    (runBank s (.send from_ vm p.denomIn amt :: mintAndSplit p from_ (otherToken amt p.decIn p.decOut))).map fun s1 =>
+    (runBank s (stableMintOps p from_ amt (otherToken amt p.decIn p.decOut))).map fun s1 =>
       let id := s1.nextStable + 1
       { s1 with stables := s1.stables ++ [{ id := id, product := prod, amountIn := amt,
                                             amountOut := otherToken amt p.decIn p.decOut }],
@@ -390,7 +437,7 @@ def stableDeposit (s : State) (p : Product) (e : Env) (from_ app prod stableId :
     else if otherToken amt p.decIn p.decOut < p.debtFloor then none
     else if s.minted prod + otherToken amt p.decIn p.decOut ≥ p.debtCeiling then none
     else
-      (runBank s (.send from_ vm p.denomIn amt :: mintAndSplit p from_ (otherToken amt p.decIn p.decOut))).map fun s1 =>
+      (runBank s (stableMintOps p from_ amt (otherToken amt p.decIn p.decOut))).map fun s1 =>
         { s1 with stables := setStable s1.stables { sv with amountIn := sv.amountIn + amt,
                                                             amountOut := sv.amountOut + otherToken amt p.decIn p.decOut },
                   coll := upd1 s1.coll prod (s1.coll prod + amt),
@@ -449,7 +496,7 @@ def seize (s : State) (p : Product) (e : Env) (vaultId : Nat) : Option State :=
   match findVault s vaultId, e.iota with
   | some v, some i =>
     if v.product ≠ p.id ∨ i < 0 then none else
-      (runBank s [.sendPos vm am p.denomIn v.amountIn]).map fun s1 =>
+      (runBank s (seizeOps p v)).map fun s1 =>
         { s1 with vaults := delVault s1.vaults v.id, length := s1.length - 1,
                   locked := s1.locked ++ [{ vaultId := v.id, product := v.product, amountIn := v.amountIn, amountOut := v.amountOut,
                                             debt := v.amountOut + (v.interest + i) + v.closingFee }],
@@ -497,7 +544,7 @@ def esmVault (s : State) (p : Product) (e : Env) (vaultId : Nat) : Option State 
   | none => none
   | some v =>
     if v.product ≠ p.id ∨ ¬ (e.esm = true ∧ e.pastCoolOff = true) then none else
-    (runBank s [.sendPos vm em p.denomIn v.amountIn]).map fun s1 =>
+    (runBank s (esmVaultOps p v)).map fun s1 =>
       { s1 with vaults := delVault s1.vaults v.id, length := s1.length - 1,
                 coll := upd1 s1.coll p.id (s1.coll p.id - v.amountIn),
                 minted := upd1 s1.minted p.id (s1.minted p.id - v.amountOut),
@@ -514,7 +561,7 @@ def esmStable (s : State) (p : Product) (e : Env) (stableId : Nat) : Option Stat
   | none => none
   | some r =>
     if r.product ≠ p.id ∨ ¬ (e.esm = true ∧ e.pastCoolOff = true) then none else
-    (runBank s [.sendPos vm em p.denomIn r.amountIn]).map fun s1 =>
+    (runBank s (esmStableOps p r.amountIn)).map fun s1 =>
       { s1 with coll := upd1 s1.coll p.id (s1.coll p.id - r.amountIn),
                 minted := upd1 s1.minted p.id (s1.minted p.id - r.amountOut),
                 vaultIds := updL s1.vaultIds p.id ((s1.vaultIds p.id).erase r.id),
